@@ -31,7 +31,7 @@ func (c30LogFactory) NewLogger(scope string) logging.LeveledLogger {
 }
 
 // c30API: cheap PeerConnections; audio/video say which codecs are registered.
-func c30API(audio, video, defaultInterceptors bool) *webrtc.API {
+func c30API(audio, video, defaultInterceptors bool, mtu ...uint) *webrtc.API {
 	me := &webrtc.MediaEngine{}
 	if audio {
 		_ = me.RegisterCodec(webrtc.RTPCodecParameters{
@@ -62,6 +62,9 @@ func c30API(audio, video, defaultInterceptors bool) *webrtc.API {
 	se.SetInterfaceFilter(func(string) bool { return false })
 	se.SetIncludeLoopbackCandidate(false)
 	se.LoggerFactory = c30LogFactory{}
+	if len(mtu) > 0 {
+		se.SetReceiveMTU(mtu[0])
+	}
 	opts := []func(*webrtc.API){webrtc.WithSettingEngine(se), webrtc.WithMediaEngine(me)}
 	if !defaultInterceptors {
 		opts = append(opts, webrtc.WithInterceptorRegistry(&interceptor.Registry{}))
